@@ -173,6 +173,16 @@ def run(ctx):
         n_cases += 1
     roundtrip("T/roundtrip/Tuple-1", ("Tuple", (V[0],)), {})
     roundtrip("T/roundtrip/Tuple-3", ("Tuple", (V[0], V[1], V[2])), {})
+    # a closed tuple followed by a comma is an element, not an open list
+    T2 = ("Tuple", (V[0], V[1]))
+    roundtrip("T/roundtrip/Tuple-1-of-tuple", ("Tuple", (T2,)), {})
+    roundtrip("T/roundtrip/Tuple-1-of-1-tuple", ("Tuple", (("Tuple", (V[0],)),)), {})
+    roundtrip("T/roundtrip/Tuple-1-of-empty", ("Tuple", (("Tuple", ()),)), {})
+    roundtrip("T/roundtrip/Tuple-tuple-first", ("Tuple", (T2, V[2])), {})
+    roundtrip("T/roundtrip/Tuple-tuple-last", ("Tuple", (V[2], T2)), {})
+    roundtrip("T/roundtrip/Call-arg-1-tuple-of-tuple",
+              ("Call", V[3], (("Tuple", (T2,)),)), {})
+    n_cases += 6
     roundtrip("T/roundtrip/Subscript-tuple-index",
               ("Subscript", V[0], ("Tuple", (V[1], V[2]))), {})
     roundtrip("T/roundtrip/Call-0-args", ("Call", V[0], ()), {})
